@@ -135,6 +135,12 @@ func H_C13_seq() {
 	shapes := make([]int, L)
 	ids := make([]uint64, L)
 	for i := 0; i < L; i++ {
+		if vfParam("preset", 0) == 1 && i < 2 {
+			// several replies to one unary call: the first two envelopes are complete replies to call 1
+			shapes[i] = 4
+			ids[i] = 1
+			continue
+		}
 		if i == 0 && first >= 0 {
 			shapes[i] = first
 		} else {
